@@ -82,7 +82,8 @@ pub fn select(file: &[Line], sd: &Side, l: usize, last_offset: isize) -> (Anchor
         Anchor::Start => if m.contains(&0) { Some(0) } else { None },
         Anchor::End => { let e = (file.len() - view.len()) as isize; if m.contains(&e) { Some(e) } else { None } }
         Anchor::Middle => {
-            let e = sd.stated + last_offset;
+            // the lines trimmed from the front are skipped, not pulled out: the view is expected pf lines below the stated line
+            let e = sd.stated + pf as isize + last_offset;
             let mut best: Option<isize> = None;
             for &q in &m {
                 best = match best {
@@ -139,8 +140,8 @@ pub fn check_c02(case: &ApplyCase, ex: &Exec, fuzz_limit: usize, seen: &mut Seen
                         out.push(Violation::new("C02", class, format!("step {} hunk {}: reported line {} fuzz {}, rules select {:?} (anchor {:?}, {} matches, expected line {})",
                             si, hi, line, l, sel, anchor, nmatch, sd.stated + last_offset))
                             .with("anchor", &format!("{:?}", anchor)));
-                    } else if *offset != *line - sd.stated {
-                        out.push(Violation::new("C02", "offset-misreported", format!("step {} hunk {}: line {} stated {} offset {}", si, hi, line, sd.stated, offset)));
+                    } else if *offset != *line - sd.stated - (if anchor == Anchor::Middle { trims(sd.p, sd.s, l).0 as isize } else { 0 }) {
+                        out.push(Violation::new("C02", "offset-misreported", format!("step {} hunk {}: line {} stated {} offset {} (fuzz {})", si, hi, line, sd.stated, offset, l)));
                     } else {
                         // lowest level rule
                         for l2 in 0..l {
